@@ -1,6 +1,7 @@
 import TensoraVerif.Model.Sexp
 import TensoraVerif.Model.AlgebraWire
 import TensoraVerif.Model.Graph
+import TensoraVerif.Model.IterGraph
 
 /-! Wire format for identifiable expressions (driver only). -/
 namespace TV.Graph.Wire
@@ -36,5 +37,17 @@ def leafToSexp (l : Leaf) : Sexp := .list [.str l.tensor.id, Sexp.ofNat l.layer]
 
 def contextToSexp (c : Context) : Sexp :=
   Sexp.mk "Context" [Sexp.ofBool c.isSparse, .list (c.sparseLeaves.map leafToSexp), .list (c.denseLeaves.map leafToSexp)]
+
+partial def graphToSexp : IGraph → Sexp
+  | .terminal e => Sexp.mk "T" [idExprToSexp e]
+  | .iter i o n => Sexp.mk "I" [.str i, (match o with | some l => leafToSexp l | none => .atom "nil"), graphToSexp n]
+  | .sum ts => Sexp.mk "S" (ts.map graphToSexp)
+
+def formatsOf (s : Sexp) : Option Formats := do
+  (← s.toList?).mapM fun nf => match nf with
+    | .list [.str n, .str ms, o] => do
+      let modes ← ms.toList.mapM fun c => if c == 'd' then some Mode.dense else if c == 's' then some Mode.compressed else none
+      pure (n, modes, ← o.toNats?)
+    | _ => none
 
 end TV.Graph.Wire
